@@ -207,6 +207,15 @@ def check_relations(ref, pr, st, cand):
         got_sb = {str(c) for c in sb}
         if got_sb != want_sb:
             bad("siblings-differ", [s, sorted(got_sb)[:5]], sorted(want_sb)[:5])
+        # the same Sid built another way (from its fields given in another order) navigates the same
+        try:
+            y = Sid(fields=dict(reversed(list(x.fields.items()))))
+            same = (y == x and y.exists() == ex and {str(c) for c in y.children()} == got_ch and {str(c) for c in y.siblings()} == got_sb
+                    and y.parent == x.parent)
+            if not same:
+                bad("sid-built-from-unordered-fields-navigates-differently", [s, y.uri, sorted(str(c) for c in y.siblings())[:4], y.parent.uri], [sorted(got_sb)[:4], x.parent.uri])
+        except Exception as e:  # noqa
+            bad(f"sid-navigation-raises/{type(e).__name__}/built-from-fields", [s, repr(e)[:80]], "answers")
     # whatever exists on the file system has an existing parent
     for e in sorted(st.paths):
         if "/" in e:
